@@ -154,7 +154,7 @@ func runC18(w *World, r *Report) {
 			}
 		}
 	}
-	r.rule("roots", "operations of the property's mix resolved to functions", 25)
+	r.rule("roots", "operations of the property's mix resolved to functions", 20)
 	for _, rs := range c18Roots {
 		fn := w.Func(rs.pkg, rs.recv, rs.name)
 		key := rs.pkg + "." + rs.recv + "." + rs.name
